@@ -15,7 +15,10 @@ def main():
         sh(f"git -C /repo worktree add -q --detach {wt} HEAD")
         env = dict(os.environ, PYTHONPATH=wt, PYTHONDONTWRITEBYTECODE="1")
         os.makedirs(os.path.join(wt, "out", "k"))
-        shutil.copy(os.path.join(d, "equiv.py"), os.path.join(wt, "out", "k", "equiv.py"))
+        import re
+        src = open(os.path.join(d, "equiv.py")).read()
+        src = re.sub(r"/tmp/bn_C\d\d", wt, src)        # some scripts assert that they import the scratch worktree they were written in
+        open(os.path.join(wt, "out", "k", "equiv.py"), "w").write(src)
         r0 = sh("/venv/bin/python out/k/equiv.py", cwd=wt, env=env, timeout=1800)
         ap = sh(f"git apply {os.path.join(d, 'patch.diff')}", cwd=wt)
         if ap.returncode != 0:
